@@ -89,7 +89,8 @@ theorem row_roundtrip_left {r : Row} {i k : Nat} (hr : HonestRow r i k) (codec :
   unfold fromRaw
   have hl : (toRaw r).sharesHalf.length = k := by
     simp [toRaw, List.length_take, hr.len]; omega
-  simp only [hc, hl]
+  have hk0 : ¬ (k = 0) := by have := hr.kpos; omega
+  simp only [hc, hl, hk0, ↓reduceIte]
   rw [buildShares_ok i k r.shares 0 (fun j sh hj => by simpa using hr.ok j sh hj)]
 
 /-- **Round trip from the right half**: if the codec reconstructs the row from its right half (the MDS property of
@@ -100,7 +101,8 @@ theorem row_roundtrip_right {r : Row} {i k : Nat} (hr : HonestRow r i k) (codec 
   unfold fromRaw
   have hl : (toRawRight r).sharesHalf.length = k := by
     simp [toRawRight, List.length_drop, hr.len]; omega
-  simp only [hc, hl]
+  have hk0 : ¬ (k = 0) := by have := hr.kpos; omega
+  simp only [hc, hl, hk0, ↓reduceIte]
   rw [buildShares_ok i k r.shares 0 (fun j sh hj => by simpa using hr.ok j sh hj)]
 
 /-- soundness in reduction form (satisfiable by real hashes) -/
@@ -150,6 +152,7 @@ def isOkNs (r : Except Lumina.Model.Namespace.Err Bytes) : Bool := match r with 
 set_option maxRecDepth 20000 in
 theorem nonvacuity_okRow_honest : HonestRow okRow 0 1 where
   len := rfl
+  kpos := by decide
   ok := by
     have h : ∀ j, j < 2 →
         (match okRow.shares[j]? with
